@@ -14,7 +14,7 @@ fn fmt_stub2(_a: core::fmt::Arguments<'_>) -> String {
 // @harness c12_reftable_grow
 // @props C12
 // @tier quick
-// @cost 150
+// @cost 9
 // @timeout 1200
 // @needs G0
 // @desc the refcount-table extension step of ensure_refblock_offset (the `if !reftable.in_bounds(rt_index) {..}` statement with the real call-site arguments to RefTable::clone_and_grow, lifted verbatim; grow_reftable shimmed): for a refcount table of 1 or 2 clusters and any refcount-table index beyond it, the step does not panic, afterwards the table covers the index, keeps every old entry, and a table that no longer fits its on-disk clusters is handed to grow_reftable for relocation
